@@ -461,6 +461,10 @@ func (w *ammWorld) policy() {
 		start := uint64(w.height) + uint64(rng.Intn(2))
 		stop := start + uint64(rng.Intn(12))
 		alloc := rng.Amount(90)
+		if rng.Chance(1, 5) {
+			// a tiny allocation: a few base units per block, so that providers' shares round to zero
+			alloc = big.NewInt(int64(1 + rng.Intn(40)))
+		}
 		mod := uint64(1 + rng.Intn(3))
 		dist := rng.Bool()
 		dm := rng.Rate01()
@@ -1103,6 +1107,27 @@ func init() {
 			w.opAdd(w.users[3], "cusdc", e18(1), e18(1)) // refreshed: inside the lock period at the epoch end
 			w.setHeight(15)
 			w.opEpoch()
+		}
+		// D19: depth rewards paid to providers with a tiny allocation (1 base unit per block, 3 equal providers; 2
+		// per block, 5 providers; 1 per block, 2 providers): every share rounds to zero — whatever is minted and
+		// cannot be paid must be burned again, nothing may stay in the module account
+		for _, c := range [][2]int64{{10, 3}, {20, 5}, {10, 2}} {
+			w := newAmmWorld(rng, out, int(c[1])+1, -1)
+			w.fundAll()
+			w.opCreate(w.users[0], "ceth", e18(1000), e18(50))
+			for i := 1; i < int(c[1]); i++ {
+				w.opAdd(w.users[i], "ceth", e18(1000), e18(50))
+			}
+			def := sdk.OneDec()
+			a := sdk.NewUint(uint64(c[0]))
+			per := &clptypes.RewardPeriod{RewardPeriodId: "rp", RewardPeriodStartBlock: 1, RewardPeriodEndBlock: 10, RewardPeriodAllocation: &a, RewardPeriodDefaultMultiplier: &def, RewardPeriodDistribute: true, RewardPeriodMod: 1}
+			p := w.app.ClpKeeper.GetRewardsParams(w.ctx)
+			p.RewardPeriods = []*clptypes.RewardPeriod{per}
+			w.app.ClpKeeper.SetRewardParams(w.ctx, p)
+			w.cfg(fmt.Sprintf("rewardperiod 1 10 %d 1 1 1000000000000000000", c[0]))
+			for i := 0; i < 4 && !w.halted; i++ {
+				w.opEndBlock()
+			}
 		}
 		// D18: pools whose symbols are in a prefix relation (cet, cet1, ceth), each with its own provider besides the
 		// creator, under a provider distribution (LPPD) and under depth rewards paid to providers: a provider is paid
